@@ -43,6 +43,7 @@ class Ctx:
         self.replayers = {}
         self.notes = []
         self._pending_units = []
+        self.assume_whys = {}  # reason -> number of times an `assume` with that reason entered a path condition (mechanical scan)
 
     # engines -----------------------------------------------------------
     def engine(self, **kw):
@@ -150,7 +151,15 @@ class Ctx:
             "obls": [{"name": o.name, "smt2": o.smt2, "func": o.func, "kind": o.kind, "info": o.info, "replay": o.replay, "expect": o.expect} for o in self.obls],
             "units": self.units, "undecided": self.undecided, "expectations": self.expectations,
             "functions": self.functions, "trusted": self.trusted[nt:], "assumptions": self.assumptions[na:], "notes": self.notes,
+            "assume_whys": self._assume_whys(),
         }
+
+    def _assume_whys(self):
+        out = {}
+        for e in self.engines:
+            for w, n in getattr(e, "assume_whys", {}).items():
+                out[w] = out.get(w, 0) + n
+        return out
 
     def run_units(self, procs=16):
         import multiprocessing as mp
@@ -177,7 +186,7 @@ class Ctx:
                         nm = self._pending_units[i][0]
                         results.append({"obls": [], "units": [{"unit": nm, "status": "undecided", "reason": f"obligation generation exceeded {limit}s"}],
                                         "undecided": [(nm, f"engine: obligation generation exceeded {limit}s (path explosion?)")], "expectations": [],
-                                        "functions": {}, "trusted": [], "assumptions": [], "notes": []})
+                                        "functions": {}, "trusted": [], "assumptions": [], "notes": [], "assume_whys": {}})
             finally:
                 pool.terminate()
                 pool.join()
@@ -200,6 +209,8 @@ class Ctx:
             for a_ in r["assumptions"]:
                 self.assume_note(a_)
             self.notes += r["notes"]
+            for w, n in (r.get("assume_whys") or {}).items():
+                self.assume_whys[w] = self.assume_whys.get(w, 0) + n
         self.obls, self.units, self.undecided, self.expectations = obls, units, und, exps
         self.functions = funcs
 
@@ -518,6 +529,7 @@ def main(argv=None):
         "functions_under_contract": ctx.functions,
         "units": ctx.units,
         "undecided": [{"what": n, "why": w} for n, w in undecided],
+        "assumed_in_path_conditions": [{"reason": w, "times": n} for w, n in sorted(ctx.assume_whys.items())],
         "vacuity_guards": {"canaries": sum(1 for o in ctx.obls if o.expect == "refutable"), "failed": vac_fail, "infeasible_paths_explored": infeasible_paths,
                            "expectations": [{"what": d, "ok": ok} for d, ok in ctx.expectations]},
         "bounded_standins": [{k: v for k, v in b.items() if k not in ("failures",)} for b in bounded_results],
